@@ -368,7 +368,13 @@ for _n in (16, 32):
     C15_JOBS.append(dict(
         id="C15.Xmemcpy_%d@sse" % _n, src="c15_xmemcpy.c", harness="h_Xmemcpy_%d" % _n, units=arch_units("sse") + ["sse.Xmemcpy_16", "sse.Xmemcpy_32"], defs=[dict(ARCHS)["sse"], "XM_MAX=5"], arch="sse",
         route="B(chunks<=5)", bound="chunks <= 5", function="sse::Xmemcpy<%d>" % _n, unwind=12, object_bits=12, timeout=900,
-        claims="bounded (chunks <= 5), sse instantiation only: every byte k < chunks*%d of the destination equals the source byte, the source is unchanged, and every load/store stays inside the exact-size blocks (memcpy semantics, the statement both instantiations must meet). The avx2 body is NOT decided" % _n))
+        claims="bounded (chunks <= 5), sse instantiation only: every byte k < chunks*%d of the destination equals the source byte, the source is unchanged, and every load/store stays inside the exact-size blocks (memcpy semantics, the statement both instantiations must meet). The avx2 body: see the .split jobs" % _n))
+for _arch, _vdef in ARCHS:
+    for _n in (16, 32):
+        C15_JOBS.append(dict(
+            id="C15.Xmemcpy_%d.split@%s" % (_n, _arch), src="c15_xmemcpy.c", harness="h_Xmemcpy_%d_split" % _n, units=arch_units(_arch) + [_arch + ".Xmemcpy_16", _arch + ".Xmemcpy_32"], defs=[_vdef], arch=_arch,
+            route="B(chunks<=9)", bound="chunks <= 9 (case-split into constants)", function="%s::Xmemcpy<%d>" % (_arch, _n), unwind=20, object_bits=12, timeout=900,
+            claims="bounded (every chunk count 0..9, all contents): destination bytes [0, chunks*%d) equal the source, the byte after them is not written, the source is unchanged, all loads/stores inside the blocks; the same statement for the avx2 and the sse body => identical results" % _n))
 PROPS["C15"] = dict(level="other", jobs=C15_JOBS, trusted_base=COMMON_TRUST + MODEL_TRUST,
     native=[dict(id="ifunc_forwarders", kind="script", src="tools/ifunc_check.py",
                  obligation="C15.dispatch: every target(SONIC_WESTMERE/SONIC_HASWELL) wrapper in x86_ifuncs/*.h is `return <sse|avx2>::<same name>(<its parameters in order>);`")],
@@ -413,7 +419,7 @@ _INFO = {
  "C14": dict(assumptions=["operands live in objects made of whole 4096-byte pages (s < 32) or exact-size heap blocks (s >= 32); s <= 2^31-1", "libc memcmp is an uninterpreted function in the sse forwarder job"],
              undecided=["findMemberImpl's linear scan and std::multimap lookup themselves (DOM classes); only the comparator and the byte-compare kernels are decided", "sign of InlinedMemcmp for s > 159 (unbounded job proves only: result 0 implies equal bytes)"]),
  "C15": dict(assumptions=["GCC's ifunc resolver picks one of the checked wrappers; -march code generation is correct"],
-             undecided=["SkipContainer, Quote, parseStringInplace, the DOM parse driver and the serializer across configurations", "SkipString for len > 40 (relational)", "Xmemcpy<16|32>: the avx2 bodies (solver memory exhausted) and the sse bodies beyond 5 chunks", "production vs sanitizer preprocessor paths other than in_page_32 / is_eq_lt_32 / cmp_lt_32 (C14)"]),
+             undecided=["SkipContainer, Quote, parseStringInplace, the DOM parse driver and the serializer across configurations", "SkipString for len > 40 (relational)", "Xmemcpy<16|32> beyond 9 chunks (both bodies; the symbolic-count harness exhausts the solver on the avx2 bodies, the case-split one is bounded by construction)", "production vs sanitizer preprocessor paths other than in_page_32 / is_eq_lt_32 / cmp_lt_32 (C14)"]),
  "C16": dict(assumptions=["BaseAllocator::Malloc returns null or a fresh suitably aligned block; Free releases it (stub)", "libc memcpy copies n bytes (contract)", "sizes, capacities and the policy's chunk size <= 2^48"],
              undecided=["constructors (member-initialiser lists), move construction", "chunk lists longer than 3 in Clear / Size / Capacity / destructor / copy assignment", "the locked-allocator option (C17)"]),
 }
